@@ -192,6 +192,9 @@ pub enum Fault {
     Random { offset: usize, len: usize, seed: u64 },
     /// overwrite a header number/field with an extreme value
     Poke { offset: usize, bytes: Vec<u8> },
+    /// a multi-byte UTF-8 character written at a header offset (text fields are sliced
+    /// at fixed byte positions): which = 0 two bytes, 1 three bytes, 2 four bytes
+    Utf8 { offset: usize, which: u8 },
 }
 
 #[derive(Serialize, Deserialize, Clone, Debug, PartialEq)]
@@ -307,7 +310,7 @@ impl GridSimA {
     }
 
     fn cases(f: &BaseFile) -> u64 {
-        1 + f.trunc.len() as u64 + 8 * f.header_bytes.len() as u64 + f.multi
+        1 + f.trunc.len() as u64 + 8 * f.header_bytes.len() as u64 + 3 * f.header_bytes.len() as u64 + f.multi
     }
 }
 
@@ -348,7 +351,7 @@ impl Engine for GridSimA {
 
     fn info() -> EngineInfo {
         EngineInfo {
-            rule: "gridsim-a: fault ENUMERATION at the decoder seam (BaseGrid::gravsoft / Ntv2Grid::new on a byte slice, then Grid::bands/contains/at). For each shipped grid file and each harness-generated well-formed file: the intact file; every truncation length (exhaustive for every file but one; the 2.8 MB deformation model: every line boundary in the thorough tier / a fixed subsample in quick, plus seeded interior offsets); every single-bit flip of every header byte (NTv2 overview and every sub-grid header record; the Gravsoft header line); and a seeded sample of multi-byte corruptions (zeroed block = torn page, duplicated block, splice with another file of the same format, random bytes, truncate+zero-fill, extreme values poked into header fields). After every decode that returns Ok a fixed set of ~60 points x 5 margins (corners, edges +-half cell, lattice, far outside, NaN, inf, subnormal) is queried. A case is one (file, fault); all enumerated cases are distinct by construction; non-trivial = the fault changes the bytes.",
+            rule: "gridsim-a: fault ENUMERATION at the decoder seam (BaseGrid::gravsoft / Ntv2Grid::new on a byte slice, then Grid::bands/contains/at). For each shipped grid file and each harness-generated well-formed file: the intact file; every truncation length (exhaustive for every file but one; the 2.8 MB deformation model: every line boundary in the thorough tier / a fixed subsample in quick, plus seeded interior offsets); every single-bit flip of every header byte (NTv2 overview and every sub-grid header record; the Gravsoft header line); a 2-, 3- and 4-byte UTF-8 character written at every header offset; and a seeded sample of multi-byte corruptions (zeroed block = torn page, duplicated block, splice with another file of the same format, random bytes, truncate+zero-fill, extreme values poked into header fields). After every decode that returns Ok a fixed set of ~60 points x 5 margins (corners, edges +-half cell, lattice, far outside, NaN, inf, subnormal) is queried. A case is one (file, fault); all enumerated cases are distinct by construction; non-trivial = the fault changes the bytes.",
             real_components: &["geodesy grid decoders and Grid implementations (BaseGrid, Ntv2Grid)"],
             simulated_components: &["the storage: file contents after crash/truncation, media damage, torn writes"],
             assumptions: &[
@@ -390,6 +393,16 @@ impl Engine for GridSimA {
                 fault: Fault::Flip {
                     byte: f.header_bytes[(k / 8) as usize],
                     bit: (k % 8) as u8,
+                },
+            };
+        }
+        k -= 8 * f.header_bytes.len() as u64;
+        if k < 3 * f.header_bytes.len() as u64 {
+            return PlanA {
+                file,
+                fault: Fault::Utf8 {
+                    offset: f.header_bytes[(k / 3) as usize],
+                    which: (k % 3) as u8,
                 },
             };
         }
@@ -507,6 +520,19 @@ impl Engine for GridSimA {
                     *b = r.next_u64() as u8;
                 }
                 rec.fault("random_bytes");
+            }
+            Fault::Utf8 { offset, which } => {
+                let ch: &[u8] = match which % 3 {
+                    0 => "\u{e9}".as_bytes(),
+                    1 => "\u{20ac}".as_bytes(),
+                    _ => "\u{1f30d}".as_bytes(),
+                };
+                for (i, b) in ch.iter().enumerate() {
+                    if let Some(t) = bytes.get_mut(offset + i) {
+                        *t = *b;
+                    }
+                }
+                rec.fault("multibyte_utf8_in_header");
             }
             Fault::Poke { offset, bytes: v } => {
                 for (i, b) in v.iter().enumerate() {
@@ -660,7 +686,7 @@ impl Engine for GridSimB {
             real_components: &["geodesy grid decoders and Grid::at/contains/bands"],
             simulated_components: &["grid file contents (harness encoders written from the format descriptions)"],
             assumptions: &["node values are read back through Grid::at at the node positions with a 1e-6 relative tolerance (f32 storage and interpolation arithmetic at the node)"],
-            required_probes: &["gravsoft_1band", "gravsoft_2band", "gravsoft_3band", "gravsoft_projected", "ntv2_big_endian", "ntv2_with_children", "ntv2_grandchild", "gsa_twin"],
+            required_probes: &["gravsoft_1band", "gravsoft_2band", "gravsoft_3band", "gravsoft_projected", "ntv2_big_endian", "ntv2_with_children", "ntv2_grandchild", "ntv2_siblings_sharing_an_edge", "gsa_twin"],
             exhaustive: false,
         }
     }
@@ -827,6 +853,9 @@ impl Engine for GridSimB {
                 }
                 if n.subgrids.iter().any(|g| g.name.starts_with('G')) {
                     rec.probe("ntv2_grandchild");
+                }
+                if n.subgrids.iter().any(|g| g.name.starts_with('W') || g.name.starts_with('S')) {
+                    rec.probe("ntv2_siblings_sharing_an_edge");
                 }
                 let bytes = n.encode();
                 let mut h = Hash128::new();
